@@ -9,7 +9,12 @@ import RuxModel.Model.Path
    match <method> <path>               answers the id of the route found, or `none`
    serve <method> <mode> <raw> <urlpath> <escaped>
                                        request through ServeHTTP; `URL.Path` and `URL.EscapedPath()` as
-                                       net/url produced them are part of the op line, the model chooses -/
+                                       net/url produced them are part of the op line, the model chooses
+   rserve <method> <kind> <arg> <target> <urlpath> <escaped>
+                                       request whose URL was rewritten before the router runs (StripPrefix,
+                                       a WrapHTTPHandlers pre handler, HandleContext re-dispatch): `<urlpath>`
+                                       and `<escaped>` are those of the URL THE ROUTER SEES; the original request
+                                       target (`Request.RequestURI`) plays no part in the model -/
 namespace Rux.Drv.PathE
 open Rux.Drv
 open Rux.Bytes Rux.Path
@@ -64,6 +69,14 @@ def pathStep (s : PathSt) : List String → PathSt × String
       | .ok o => (s, resId o)
       | .error e => (s, e.cls)
     | _, _, _ => (s, "bad-op")
+  | ["rserve", m, kind, arg, target, up, ep] =>
+    match ofHex m, ofHex arg, ofHex target, ofHex up, ofHex ep with
+    | some m, some _, some _, some up, some ep =>
+      if kind ≠ "s" ∧ kind ≠ "w" ∧ kind ≠ "c" then (s, "bad-op") else
+      match s.r.serveStatic m up ep with
+      | .ok o => (s, resId o)
+      | .error e => (s, e.cls)
+    | _, _, _, _, _ => (s, "bad-op")
   | _ => (s, "bad-op")
 
 def pathEngine : Engine := { σ := PathSt, init := {}, step := pathStep }
